@@ -157,3 +157,17 @@ def find_body(repo, rel, sig_regex, name=None, within=None, nth=None):
     line0 = text.count('\n', 0, m.start()) + 1
     line1 = text.count('\n', 0, end) + 1
     return Body(rel, name or sig_regex, body, line0, line1, handler, sig=text[m.start():i].strip())
+
+
+def find_body_after(repo, rel, full_regex, name):
+    """Like find_body, for definitions whose signature is followed by a member-initialiser list: `full_regex` (applied to the comment-stripped text) must match
+    signature AND initialiser list and END WITH the opening brace of the body, so that the initialisers are pinned by the regex (they are part of what is extracted)."""
+    raw, text = read_source(repo, rel)
+    ms = list(re.finditer(full_regex, text))
+    if len(ms) != 1:
+        raise ExtractionBreak('%s: %d matches for the definition in %s (expected exactly 1)' % (name, len(ms), rel))
+    m = ms[0]
+    if text[m.end() - 1] != '{':
+        raise ExtractionBreak('%s: pattern does not end at the opening brace' % name)
+    close = match_brace(text, m.end() - 1)
+    return Body(rel, name, text[m.end():close], text.count('\n', 0, m.start()) + 1, text.count('\n', 0, close) + 1, sig=m.group(0))
